@@ -151,6 +151,7 @@ func runC12(c *core.Ctx) core.Meta {
 	checkParkedRequestsReleasedAtZero(c, pd)
 	checkLaunchPathsMarkDirty(c, "R12.25", pd)
 	checkDirtyMarkUnconditional(c, "R12.26")
+	checkFlushDecision(c, "R12.32", pd, core.NewProv(c))
 	checkAppendToOwnField(c, "R12.22", "The command processor flushes and invalidates the caches on its lists before a copy that touches a dirty buffer: a cache that is on no list keeps stale lines, and the kernel after the copy does not see what the copy wrote.", 8, NewPkgInfo(c, r9nanoPkg), NewPkgInfo(c, mi300aPkg), NewPkgInfo(c, tconfigPkg))
 	checkNoCompactionWhileRanging(c, "R12.21", 7, pd)
 	prov := core.NewLocalProv(c)
